@@ -154,14 +154,16 @@ CLAIMED.update({
              'code points), compiled structures with 9 follow contexts, selection on documents with near-miss values.',
         note='the statement for all strings is not proved (partial).',
         technique='Coq model of escape + parser, bounded kernel proof + exhaustive differential'),
-    'C20': dict(cat='proof', design='DESIGN.md §7 C20',
+    'C20': dict(cat='proof', design='DESIGN.md §0, §7 C20',
         text='Theorems: pretty() terminates on every string (each regenerated token pattern is non-nullable, fallback branch, progress '
-             'lemma); get_pattern_context\'s line and column equal the specification for every string over {a, LF, CR} up to length 7 '
-             'at every offset (kernel computation). Differential: context function vs model vs specification incl. caret placement; '
-             'every SelectorSyntaxError of a mutated multi-line selector must point inside its pattern and agree with the model '
-             'parser; DEBUG vs no flag (structure and selection, with default-namespace maps); pretty() under an alarm vs model output.',
-        note='the context theorem is bounded (partial); "reproduces the repr up to white space" is checked, not proved.',
-        technique='Coq termination proof + bounded kernel proof + diagnostics differential'),
+             'lemma); for EVERY string and EVERY offset in it, get_pattern_context reports the line and column of the specification '
+             '(LineFacts.gpc_line_col: the matches finditer yields for the REGENERATED line-split pattern are characterised - one per CR LF / CR / '
+             'LF, then the empty match at the end - and the loop is followed; no bound). Differential: context function vs model vs '
+             'specification incl. caret placement; every SelectorSyntaxError of a mutated multi-line selector, and of a malformed custom '
+             'definition, must point inside the text it belongs to and agree with the model parser; DEBUG vs no flag (structure and '
+             'selection, with default-namespace maps); pretty() under an alarm vs model output.',
+        note='"reproduces the repr up to white space" and the caret text of the context are checked, not proved.',
+        technique='Coq termination proof + unbounded line/column theorem over the regenerated regex + diagnostics differential'),
 })
 NOT_YET = {}
 props = [json.loads(l) for l in open(os.path.join(V, 'properties.jsonl'))]
